@@ -333,9 +333,9 @@ def check(ctx):
         topic_c = [c for c in gs.calls(me[2][0], r"HashMap::get_mut$") if render(c[2][0]) == "self.mesh"]
         topic_r = render(topic_c[0][2][1]) if topic_c else "?"
         ctx.ob("eligible", "handle_graft: inserts into the mesh of the grafted topic", head is not None and bool(topic_c), m.loc(), render(me[2][0])[:160])
-        ctx.guarded("eligible", "handle_graft: peer is connected", m, lambda c, r, l: l == "Some" and r == "discr(std::collections::HashMap::get_mut(self.connected_peers, %s))" % peer_r,
+        gs.guarded(ctx, "eligible", "handle_graft: peer is connected", m, lambda c, r, l: l == "Some" and r == "discr(std::collections::HashMap::get_mut(self.connected_peers, %s))" % peer_r,
                     "connected_peers.get_mut(peer) is Some")
-        ctx.guarded("eligible", "handle_graft: not explicit", m, lambda c, r, l: l == "false" and r == "std::collections::HashSet::contains(self.explicit_peers, %s)" % peer_r,
+        gs.guarded(ctx, "eligible", "handle_graft: not explicit", m, lambda c, r, l: l == "false" and r == "std::collections::HashSet::contains(self.explicit_peers, %s)" % peer_r,
                     "explicit_peers.contains(peer) is false")
 
         def neg_false(c, r, l):
@@ -344,7 +344,7 @@ def check(ctx):
             x = gs.expand(hg, c)
             return x[0] == "field" and x[2] == "0" and x[1][0] == "call" and re.search(r"PeerScoreState::below_threshold$", strip_generics(x[1][1])) is not None \
                 and render(x[1][2][0]) == "self.peer_score" and render(x[1][2][1]) == peer_r and zero_closure(prog, hg, x[1])
-        ctx.guarded("eligible", "handle_graft: score not negative", m, neg_false, "below_threshold(peer, |_| 0.0).0 is false")
+        gs.guarded(ctx, "eligible", "handle_graft: score not negative", m, neg_false, "below_threshold(peer, |_| 0.0).0 is false")
 
         def not_running(c, r, l):
             if l == "None" and r == "discr(libp2p_gossipsub::backoff::BackoffStorage::get_backoff_time(self.backoffs, %s, %s))" % (topic_r, peer_r):
@@ -393,7 +393,7 @@ def check(ctx):
             edges = gs.guard(hs, pred, head if head is not None else 0)
             ok = bool(edges) and head is not None and hs.must_pass_edges(m.bb, edges, start=head)
             ctx.ob("eligible", "handle_received_subscriptions: " + inst, ok, m.loc(), ("every path from the subscription loop head to peers.insert passes: " if ok else "a path reaches peers.insert without: ") + desc)
-        ctx.guarded("eligible", "handle_received_subscriptions: peer is connected", m, lambda c, r, l: l == "Some" and r == "discr(std::collections::HashMap::get_mut(self.connected_peers, %s))" % peer_r,
+        gs.guarded(ctx, "eligible", "handle_received_subscriptions: peer is connected", m, lambda c, r, l: l == "Some" and r == "discr(std::collections::HashMap::get_mut(self.connected_peers, %s))" % peer_r,
                     "connected_peers.get_mut(source) is Some")
         from_head(lambda c, r, l: l == "false" and r == "std::collections::HashSet::contains(self.explicit_peers, %s)" % peer_r, "!explicit_peers.contains(source)", "not explicit")
         from_head(lambda c, r, l: l == "true" and re.match(r"^libp2p_gossipsub::types::PeerKind::is_gossipsub\(std::collections::HashMap::get_mut\(self\.connected_peers, " + re.escape(peer_r) + r"\)@Some\.0\.kind\)$", r) is not None,
@@ -413,7 +413,7 @@ def check(ctx):
                and gs.next_call_bb(hs.site_expr(s)[2][1]) == head]
         ok = bool(rec) and head is not None and hs.must_pass_nodes(gs.some_edge_targets(hs, head), [m.bb], lib.bbs(rec))
         ctx.ob("eligible", "handle_received_subscriptions: peer is recorded as subscribed to the topic first", ok, m.loc(), "peer.topics.insert(topic) precedes the mesh insertion in the iteration")
-        ctx.guarded("eligible", "handle_received_subscriptions: only for a Subscribe action", m, lambda c, r, l: l == "Subscribe" and r.startswith("discr(") and r.endswith(".action)"), "match subscription.action { Subscribe }")
+        gs.guarded(ctx, "eligible", "handle_received_subscriptions: only for a Subscribe action", m, lambda c, r, l: l == "Subscribe" and r.startswith("discr(") and r.endswith(".action)"), "match subscription.action { Subscribe }")
 
     # =================================================================== removal
     # unsubscribe / PRUNE -> remove_peer_from_mesh
@@ -478,7 +478,7 @@ def check(ctx):
         got = lib.count_range(oc, gs.edge_targets(some_mesh), [head], [m.bb]) if some_mesh and head is not None else None
         ok = got == (1, 1) and ".topics" in render(src) and "self.connected_peers" in render(src) and "peer_id" in render(me[2][1])
         ctx.ob("remove", "last connection closed: peer leaves every mesh of its topics", ok, m.loc(), "mesh[topic].remove(peer) per topic of the peer where a mesh exists: %s; iterates %s" % (got, render(src)[-80:]))
-        ctx.guarded("remove", "last connection closed: meshes are only touched when no connection remains", m, lambda c, r, l, ze=zero_edges: False, "remaining_established == 0") if False else \
+        gs.guarded(ctx, "remove", "last connection closed: meshes are only touched when no connection remains", m, lambda c, r, l, ze=zero_edges: False, "remaining_established == 0") if False else \
             ctx.ob("remove", "last connection closed: meshes are only touched when no connection remains", bool(zero_edges) and oc.must_pass_edges(m.bb, zero_edges), m.loc(), "dominated by remaining_established == 0")
         if zero_edges and head is not None:
             tg = gs.edge_targets(zero_edges)
